@@ -391,7 +391,8 @@ pub fn run(args: &Args) {
     rt.block_on(async {
         if level == "pipeline" {
             let n = args.n(600, 12000);
-            for c in 0..n {
+            let (shard, shards) = args.param("shard").and_then(|s| s.split_once('/')).map(|(a, b)| (a.parse::<u64>().unwrap_or(0), b.parse::<u64>().unwrap_or(1).max(1))).unwrap_or((0, 1));
+            for c in (0..n).filter(|c| c % shards == shard) {
                 pipeline_case(args.seed, c, &mut rep).await;
             }
         } else {
